@@ -456,6 +456,9 @@ def diagnostics_rule(crate, syn, prop="C16"):
     return r
 
 
+from rules import field_rules as FR
+
+
 def run(ctx):
     out = []
     for fs in ctx.featuresets():
@@ -479,7 +482,7 @@ def run(ctx):
     out.append(X.where_clause_rule(ctx.mir("default")["ts_rs_macros"], "C16"))
     out.append(T.template_hygiene_rule(ctx.syn, "C16"))
     out.append(T.crate_path_rule(ctx.syn, "C16"))
-    out.append(T.passthrough_fields_rule(ctx.syn, "C16", rule="C16.R16"))
+    out.append(FR.passthrough_fields_rule(ctx.mir("default")["ts_rs_macros"], "C16", rule="C16.R16"))
     out.append(X.underscore_walker_rule(ctx.mir("default")["ts_rs_macros"], "C16", rule="C16.R14"))
     out.append(T.generics_rule(ctx.syn, "C16", rule="C16.R12", crate=ctx.mir("default")["ts_rs_macros"]))
     return out
